@@ -8,6 +8,7 @@ THEOREMS = ["Lou.Chain.insR_sorted", "Lou.Chain.find_first_le", "Lou.C05.addFwdM
             "Lou.GenFacts.opcode_values_nodup",
             "Lou.C05Link.compile_fwdWF", "Lou.C05Link.compile_select_refines",
             "Lou.FwdCRefine.translateC_eq_translate",
+            "Lou.C05Ctx.walkChainC_first",
 ]
 
 CLAIM = dict(
